@@ -12,7 +12,16 @@ use quick_xml::reader::Reader;
 use serde::{Deserialize, Serialize};
 use serde_json::Value;
 
-pub const NAMES: &[&str] = &["a", "ab", "b", "a:b", "\u{e9}"];
+pub const NAMES: &[&str] = &[
+    "a", "ab", "b", "a:b", "\u{e9}",
+    // long names, one a proper prefix of the other, around the 16 / 32 / 64 byte marks
+    "n234567890123456", "n2345678901234567", "a-name-that-is-longer-than-thirty-two-bytes", "a-name.of.more.than.sixty-four.bytes.so.that.the.name.buffer.grows.",
+    // 127, 128, 129 and 301 bytes (one-byte length encodings, u8 arithmetic)
+    "m012345678901234567890123456789012345678901234567890123456789012345678901234567890123456789012345678901234567890123456789abcdef",
+    "m012345678901234567890123456789012345678901234567890123456789012345678901234567890123456789012345678901234567890123456789abcdefg",
+    "m012345678901234567890123456789012345678901234567890123456789012345678901234567890123456789012345678901234567890123456789abcdefgh",
+    "wabcdefghijabcdefghijabcdefghijabcdefghijabcdefghijabcdefghijabcdefghijabcdefghijabcdefghijabcdefghijabcdefghijabcdefghijabcdefghijabcdefghijabcdefghijabcdefghijabcdefghijabcdefghijabcdefghijabcdefghijabcdefghijabcdefghijabcdefghijabcdefghijabcdefghijabcdefghijabcdefghijabcdefghijabcdefghijabcdefghij",
+];
 pub const TRAIL: &[&str] = &["", " ", "\t\n", "  "];
 
 #[derive(Clone, Debug, Serialize, Deserialize, PartialEq)]
@@ -313,18 +322,44 @@ fn static_bits(k: u64) -> u8 {
     b
 }
 
+fn name_idx() -> impl Strategy<Value = u8> {
+    prop_oneof![16 => 0u8..5, 2 => 5u8..9, 1 => 9u8..13]
+}
+
 fn item_strategy() -> impl Strategy<Value = Item> {
     prop_oneof![
-        4 => (0u8..5).prop_map(Item::Start),
-        4 => (0u8..5, 0u8..4).prop_map(|(n, t)| Item::End(n, t)),
-        2 => (0u8..5).prop_map(Item::Empty),
+        4 => name_idx().prop_map(Item::Start),
+        4 => (name_idx(), 0u8..4).prop_map(|(n, t)| Item::End(n, t)),
+        2 => name_idx().prop_map(Item::Empty),
         1 => Just(Item::Text),
     ]
 }
 
+/// deep nesting (60..=300 open elements, the name buffer grows several times), closed in order
+/// except for a few perturbations
+fn deep_strategy() -> impl Strategy<Value = Vec<Item>> {
+    (60usize..=300, prop::collection::vec(name_idx(), 8), prop::collection::vec((any::<u16>(), item_strategy()), 0..3)).prop_map(|(d, names, edits)| {
+        let mut items = vec![];
+        for k in 0..d {
+            items.push(Item::Start(names[k % 8]));
+            if k % 13 == 5 {
+                items.push(Item::Empty(names[(k + 1) % 8]));
+            }
+        }
+        for k in (0..d).rev() {
+            items.push(Item::End(names[k % 8], (k % 4) as u8));
+        }
+        for (at, it) in edits {
+            let k = scale(at, items.len() + 1);
+            items.insert(k, it);
+        }
+        items
+    })
+}
+
 /// mostly balanced documents, then perturbed: mismatches become rare enough for deep nesting
 fn doc_strategy() -> impl Strategy<Value = Vec<Item>> {
-    prop::collection::vec((0u8..5, 0u8..4, 0u8..10), 0..20).prop_flat_map(|plan| {
+    prop::collection::vec((name_idx(), 0u8..4, 0u8..10), 0..20).prop_flat_map(|plan| {
         // build a balanced skeleton from a plan of (name, trail, action)
         let mut items = vec![];
         let mut stack: Vec<u8> = vec![];
@@ -390,7 +425,7 @@ fn run(ctx: &Ctx) {
         check,
     );
     let strat = (
-        prop_oneof![prop::collection::vec(item_strategy(), 0..40), doc_strategy(), doc_strategy()],
+        prop_oneof![10 => prop::collection::vec(item_strategy(), 0..40), 20 => doc_strategy(), 1 => deep_strategy()],
         0u8..128,
         prop::collection::vec((0u8..40, 0u8..4, any::<bool>()), 0..6),
         any::<bool>(),
